@@ -28,6 +28,7 @@ const (
 	CmpBits CmpMode = iota // every bit pattern equal
 	CmpIEEE                // floats: NaN == NaN, +0 == -0; everything else exact
 	CmpTol                 // floats within Approx.Tol; special values by class
+	CmpSigned              // floats: NaN == NaN (any payload), everything else bit-exact: +0 and -0 differ
 )
 
 // Expect is the expectation for one request.
@@ -81,7 +82,7 @@ func CompareValue(got *ref.T, want *ref.Approx, mode CmpMode) (kind, detail stri
 		case g != g:
 		case math.IsInf(e, 0) || math.IsInf(g, 0):
 			// an infinite value must match exactly (bit patterns differ here)
-		case g == e: // +0 vs -0
+		case g == e && mode != CmpSigned: // +0 vs -0
 			continue
 		case mode == CmpTol && want.Tol != nil && math.Abs(g-e) <= want.Tol[i]:
 			continue
@@ -175,7 +176,7 @@ func CheckOp(c *Ctx, req mon.OpReq, exp Expect, viaModel bool, mo mon.ModelOpts,
 			}
 		}
 		if len(warm) > 0 {
-			or, _, stale := mon.RunOpReused(req, warm)
+			or, _, stale := mon.RunOpReused(req, warm, c.Idx%16 == 3)
 			c.Eval(1)
 			c.Count("reused-instance-calls", 1)
 			if v := Judge(exp, or); !v.OK {
